@@ -89,7 +89,7 @@ Lemma field_cmp_enc f g : same_kind f g = true -> field_ok f -> field_ok g -> is
   exists c, field_cmp f g = Ok c /\
     forall r1 r2, lex_cmp (field_enc f ++ r1) (field_enc g ++ r2) = then_cmp c (lex_cmp r1 r2).
 Proof.
-  intros K Of Og T. destruct f as [a|a|a|a|a]; destruct g as [b|b|b|b|b]; try discriminate; cbn [field_cmp field_enc].
+  intros K Of Og T. destruct f as [a|a|a|a|a|a]; destruct g as [b|b|b|b|b|b]; try discriminate; cbn [field_cmp field_enc].
   - exists (lex_cmp a b). split; [reflexivity|]. intros r1 r2.
     cbn [same_kind] in K. apply Nat.eqb_eq in K. rewrite lex_cmp_app by exact K.
     destruct (lex_cmp a b); reflexivity.
@@ -97,6 +97,11 @@ Proof.
   - apply labels_composed_wire; apply valid_nonempty; [apply Of|apply Og].
   - exists (m_charstr_canonical_cmp a b). split; [reflexivity|]. intros r1 r2.
     rewrite m_charstr_canonical_unfold. unfold wire_charstr. apply len_prefixed_cmp.
+  - exists (then_cmp (len_cmp a b) (lex_cmp a b)). split; [reflexivity|]. intros r1 r2.
+    cbn [field_ok] in Of, Og. rewrite <- !app_assoc. rewrite lex_cmp_app by reflexivity.
+    rewrite be16_cmp by lia. rewrite <- Nat2N.inj_compare. unfold len_cmp.
+    destruct (Nat.compare (length a) (length b)) eqn:E; cbn [then_cmp]; try reflexivity.
+    apply Nat.compare_eq in E. rewrite lex_cmp_app by exact E. destruct (lex_cmp a b); reflexivity.
 Qed.
 
 Lemma same_schema_nil_l b : same_schema [] b = true -> b = [].
@@ -115,7 +120,7 @@ Proof.
     inversion Oa as [|? ? Of Oa']; subst. inversion Ob as [|? ? Og Ob']; subst.
     cbn [fields_cmp fields_enc flat_map]. fold (fields_enc a). fold (fields_enc b).
     destruct (is_tail f) eqn:T.
-    + destruct f as [?|?|?|?|t1]; try discriminate. destruct g as [?|?|?|?|t2]; try discriminate.
+    + destruct f as [?|?|?|?|t1|?]; try discriminate. destruct g as [?|?|?|?|t2|?]; try discriminate.
       destruct a as [|? ?]; [|discriminate]. apply same_schema_nil_l in S3. subst.
       cbn [field_cmp bind fields_cmp fields_enc flat_map field_enc]. rewrite !app_nil_r.
       destruct (lex_cmp t1 t2); reflexivity.
@@ -155,7 +160,7 @@ Ltac fields_ok :=
   repeat (apply Forall_cons; [cbn [field_ok]; first [exact I | assumption]|]); apply Forall_nil.
 Ltac schema_instance :=
   intros; apply schema_cmp_bytewise;
-  [ cbn [same_schema same_kind tail_last be16 be32 length andb]; rewrite ?Nat.eqb_refl; try reflexivity
+  [ cbn [same_schema same_kind tail_last be16 be32 length andb app]; rewrite ?Nat.eqb_refl; try reflexivity
   | fields_ok | fields_ok ].
 
 Theorem a_canonical_bytewise x y : length x = length y ->
@@ -272,6 +277,40 @@ Theorem naptr_canonical_bytewise o1 p1 f1 s1 r1 n1 o2 p2 f2 s2 r2 n2 :
   fields_cmp (rd_naptr o1 p1 f1 s1 r1 n1) (rd_naptr o2 p2 f2 s2 r2 n2) =
   Ok (lex_cmp (fields_enc (rd_naptr o1 p1 f1 s1 r1 n1)) (fields_enc (rd_naptr o2 p2 f2 s2 r2 n2))).
 Proof. unfold rd_naptr. schema_instance. Qed.
+
+(* TSIG, OPT and IPSECKEY with an address (or no) gateway *)
+Definition be48 (n : N) : bytes := be16 (n / 4294967296) ++ be32 (n mod 4294967296).
+Lemma be48_cmp a b : a < 281474976710656 -> b < 281474976710656 -> lex_cmp (be48 a) (be48 b) = (a ?= b).
+Proof.
+  intros Ha Hb. unfold be48. rewrite lex_cmp_app by reflexivity. rewrite be16_cmp, be32_cmp by lia.
+  destruct (N.compare_spec (a / 4294967296) (b / 4294967296)) as [E|L|G];
+    destruct (N.compare_spec (a mod 4294967296) (b mod 4294967296)) as [E2|L2|G2];
+    destruct (N.compare_spec a b) as [E3|L3|G3]; try reflexivity; exfalso; lia.
+Qed.
+Definition rd_tsig (alg : name) (time fudge : N) (mac : bytes) (oid err : N) (other : bytes) : list field :=
+  [FNameRaw alg; FFixed (be48 time); FFixed (be16 fudge); FStr16 mac; FFixed (be16 oid); FFixed (be16 err);
+   FStr16 other].
+Definition rd_opt (options : bytes) : list field := [FTail options].
+(* addr: 4 or 16 octets, or none for gateway type 0 *)
+Definition rd_ipseckey_addr (prec gtype alg : N) (addr key : bytes) : list field :=
+  [FFixed [prec]; FFixed [gtype]; FFixed [alg]; FFixed addr; FTail key].
+
+Theorem tsig_canonical_bytewise a1 t1 f1 m1 i1 e1 o1 a2 t2 f2 m2 i2 e2 o2 :
+  valid_abs a1 -> valid_abs a2 -> N.of_nat (length m1) <= 65535 -> N.of_nat (length o1) <= 65535 ->
+  N.of_nat (length m2) <= 65535 -> N.of_nat (length o2) <= 65535 ->
+  fields_cmp (rd_tsig a1 t1 f1 m1 i1 e1 o1) (rd_tsig a2 t2 f2 m2 i2 e2 o2) =
+  Ok (lex_cmp (fields_enc (rd_tsig a1 t1 f1 m1 i1 e1 o1)) (fields_enc (rd_tsig a2 t2 f2 m2 i2 e2 o2))).
+Proof. unfold rd_tsig. schema_instance. Qed.
+Theorem opt_canonical_bytewise o1 o2 :
+  fields_cmp (rd_opt o1) (rd_opt o2) = Ok (lex_cmp (fields_enc (rd_opt o1)) (fields_enc (rd_opt o2))).
+Proof. unfold rd_opt. schema_instance. Qed.
+Theorem ipseckey_addr_canonical_bytewise p1 g1 a1 d1 k1 p2 g2 a2 d2 k2 : length d1 = length d2 ->
+  fields_cmp (rd_ipseckey_addr p1 g1 a1 d1 k1) (rd_ipseckey_addr p2 g2 a2 d2 k2) =
+  Ok (lex_cmp (fields_enc (rd_ipseckey_addr p1 g1 a1 d1 k1)) (fields_enc (rd_ipseckey_addr p2 g2 a2 d2 k2))).
+Proof.
+  intros H. unfold rd_ipseckey_addr. apply schema_cmp_bytewise; [|fields_ok|fields_ok].
+  cbn [same_schema same_kind tail_last length andb]. rewrite H, !Nat.eqb_refl. reflexivity.
+Qed.
 
 (* ---- NSEC: the coded comparison compares `self.types` with itself *)
 
